@@ -103,6 +103,37 @@ def run(rep, tier, seed):
                 or ro.content_enum != spec[2].get("content_enum", []) or ro.name != node_map[e]:
             rep.violation(f"{PID}:get_rule-sections-differ:{e}", f"rule object of {e} does not expose the table's sections", {"kind": "get_rule", "element": e})
     rep.notes["get_rule_calls"] = nG
+    # the shipped table must still be the file AFTER the library has been used on invalid input (error paths included)
+    import copy as _copy
+    for e in sorted(node_map):
+        spec = rules.get(node_map[e])
+        if not spec:
+            continue
+        for variant in range(3):
+            n = Node(e)
+            n.content = [None, "zq text", "-1"][variant]
+            for a, v in spec[0].items():
+                n.add_attribute(a, "zzNotListed" if len(v) > 1 else "v")
+            n.add_attribute("zzForeign", "1")
+            n.add_child(Node("zzUnknownChild"))
+            for errs in (None, []):
+                try:
+                    validate.tree(n, errs)
+                except Exception:  # noqa: BLE001 - only the table is of interest here
+                    pass
+            try:
+                validate.prune(n, strict=bool(variant % 2))
+            except Exception:  # noqa: BLE001
+                pass
+        Node.store.clear()
+    after = {k: v for k, v in rule.rules_dict.items()}
+    if after != rules:
+        changed = [k for k in rules if after.get(k) != rules[k]][:5]
+        rep.violation(f"{PID}:table-changed-by-use:{changed[0] if changed else '?'}", f"after validating invalid nodes rule.rules_dict no longer equals rules.json: {changed}; e.g. {after.get(changed[0]) if changed else None}",
+                      {"kind": "table-after-use", "rules": changed})
+    bad_now = [r for r in rules if any(not (isinstance(v, list) and v and isinstance(v[0], bool)) for v in after.get(r, [{}])[0].values())]
+    if bad_now:
+        rep.violation(f"{PID}:ill-formed-rule-after-use:{bad_now[0]}", f"attribute specs no longer led by a required flag: {bad_now[:5]}", {"kind": "table-after-use", "rules": bad_now[:5]})
     rep.sample({"element": "dataset", "witness": W.get("dataset")})
     rep.sample({"element": "eml", "witness": W.get("eml")})
     rep.cov["states"] = max(rep.cov["states"], 1)
